@@ -268,8 +268,11 @@ def check_step_dt_history(case, ctx):
         out = call(lambda: (np.asarray(step(mk(Dt=other), dt=dt), float), np.asarray(step(mk(Dt=dt)), float), np.asarray(step(mk(frequency=1.0 / dt)), float)))
         if ctx.returned(out, clause="no-exception[full update, dt per call / per instance]", route=r):
             per_call, per_inst, per_freq = out.value
+            # (Dt= hands over the very same float; frequency= 1/dt makes the filter step by 1/(1/dt), an ulp from dt, which a correction computed at an
+            # ill-conditioned pose - next to a half turn - amplifies: 1e-10 there)
             ctx.le("a full update told its step per call equals the update of an instance built with that step (Dt= or frequency=)",
-                   float(max(np.abs(per_call - per_inst).max(), np.abs(per_freq - per_inst).max())), 1e-13, {"dt": dt, "Dt_of_the_instance": other, "per_call": per_call, "per_instance": per_inst}, route=r)
+                   float(max(np.abs(per_call - per_inst).max(), 1e-3 * np.abs(per_freq - per_inst).max())), 1e-13,
+                   {"dt": dt, "Dt_of_the_instance": other, "per_call": per_call, "per_instance": per_inst, "per_frequency": per_freq}, route=r)
     # mixed entry points: updateIMU with dt, then updateMARG without
     out = call(lambda: (lambda f: (f.updateIMU(q0.copy(), w.copy(), z.copy(), dt=other), f.updateMARG(q0.copy(), w.copy(), z.copy(), m.copy()))[1])(F.Madgwick(Dt=dt)))
     if ctx.returned(out, clause="no-exception[dt given on an earlier call only]", route="first-order/Madgwick.updateMARG"):
